@@ -13,12 +13,13 @@ innermost wins, any cycle must raise ``EvaluationError``.  The real
 ``Spec.from_yaml`` in side phases) is run on every configuration.
 
 Mutation self-test (scratch copy /tmp/af-mut-c21 via VERIF_REPO, quick tier, copy removed
-afterwards); unchanged tree: exit 0.
+afterwards; counts are for the final quick alphabet of 21489 configurations); unchanged tree:
+exit 0 for VERIF_SEED=0,1,7 (quick) and for the thorough tier (810026 configurations).
   M1 _basetypes._get_parsable_field_order: dependency test ``\\bname\\b`` regex replaced by
-     ``field in other_value`` (substring)            -> CAUGHT, 3780 violations
+     ``field in other_value`` (substring)            -> CAUGHT, 2148 violations
      (acyclic-rejected/EvaluationError/*: false cycles between n1/n10/n11, e/len/pi)
   M2 same function: readiness test ``all(dep in order ...)`` dropped (fields evaluated in
-     sorted-name order)                              -> CAUGHT, 15230 violations
+     sorted-name order)                              -> CAUGHT, 9482 violations
      (acyclic-rejected/*, wrong-value/*/shadow, cycle-not-rejected/*/outer-defined)
   M3 arch.py PostCallArch: ``symbol_table.update(arch variables)`` replaced by setdefault
      (spec-level variables win over arch.variables)  -> CAUGHT, 40 violations
@@ -38,9 +39,9 @@ from mc.ref import dag as R
 
 MANIFEST = {
     "text": "every digraph of definitions on <=3 names (all of them, self references included) in every "
-            "written key order, every self-reference-free digraph on 4 names (DAGs in 8 key orders quick / "
-            "all 24 thorough), in each of the three documented scopes, plus every mixed placement of 3 names, every shadowing pattern of one "
-            "name over the three scopes and every cycle among names that also exist in an outer scope, "
+            "written key order (quick: 2 orders for cyclic 3-name digraphs), every self-reference-free digraph on 4 names (DAGs in 4 key orders quick / "
+            "all 24 thorough), in each of the three documented scopes, plus every mixed placement of 3 "
+            "names, every shadowing pattern of one name over the three scopes and every cycle among names that also exist in an outer scope, "
             "is evaluated by the real Spec._spec_eval_expressions and compared with a term-rewriting "
             "reference (lexical scoping, cycle => EvaluationError); right level because evaluation "
             "order/scoping is a finite combinatorial rule that small systems exhaust",
@@ -356,14 +357,19 @@ def uniform_tree(ns, ops_for, self_loops_by_n, orders_for, dag_only_n=(), names=
     return tree, to_sample
 
 
-def _restrict_ops(tree, ops_of_prefix):
-    """wrap a uniform tree: the term-shape menu (level 3) becomes ops_of_prefix(prefix)"""
+def _restrict_level(tree, level, menu_of_prefix):
+    """wrap a uniform tree: the menu at ``level`` becomes menu_of_prefix(prefix)"""
     def wrapped(p):
-        if len(p) == 3:
-            return ops_of_prefix(p)
+        if len(p) == level:
+            return menu_of_prefix(p)
         return tree(p)
 
     return wrapped
+
+
+def _restrict_ops(tree, ops_of_prefix):
+    """the term-shape menu (level 3) becomes ops_of_prefix(prefix)"""
+    return _restrict_level(tree, 3, ops_of_prefix)
 
 
 def all_orders(n):
@@ -539,14 +545,19 @@ def run(ctx):
     phases = []
     # A: one scope at a time; all digraphs incl. self references on n<=3; every key order.
     #    quick: the product / max-min term shapes only on the self-reference-free digraphs.
+    #    quick: cyclic digraphs on 3 names in two key orders (identity, reversal) instead of all six.
+    o3 = (lambda n, m, ac: all_orders(n)) if not q else (
+        lambda n, m, ac: all_orders(n) if (ac or n < 3) else [[0, 1, 2], [2, 1, 0]])
     t, s = uniform_tree([1, 2, 3], (lambda n, has_self: ["sum"] if (q and has_self) else ALL3),
-                        {1: True, 2: True, 3: True}, lambda n, m, ac: all_orders(n))
+                        {1: True, 2: True, 3: True}, o3)
     phases.append(("uniform-n<=3", t, s, ""))
-    # B: n = 4, every digraph without self references.  quick: DAGs in the 8 rotation/reversal
+    # B: n = 4, every digraph without self references.  quick: DAGs in 4 rotation/reversal
     #    orders, cyclic digraphs in one order (alternating identity / reversal); thorough: all 24.
     if q:
-        o4 = lambda n, m, ac: rot_orders(4) if ac else [list(range(4)) if m % 2 == 0 else [3, 2, 1, 0]]
+        o4 = lambda n, m, ac: rot_orders(4)[:4] if ac else [list(range(4)) if m % 2 == 0 else [3, 2, 1, 0]]
         t, s = uniform_tree([4], lambda n, h: ["sum"], {4: False}, o4)
+        # quick: a cyclic 4-name digraph is placed in one scope only (rotating with the digraph)
+        t = _restrict_level(t, 2, lambda p: [0, 1, 2] if p[1][1] else [p[1][0] % 3])
     else:
         t, s = uniform_tree([4], lambda n, h: ALL3, {4: False}, lambda n, m, ac: all_orders(4))
         # (cyclic digraphs raise before any term is evaluated: one term shape is enough for them)
@@ -584,7 +595,8 @@ def run(ctx):
     ctx.bound(n_names_all_digraphs_with_self_refs=3, n_names_all_digraphs_no_self_refs=4,
               n_names_dags_only=None if q else 5,
               term_shapes="sum/prod/mm" + (" (prod/mm only without self references; n=4: sum)" if q else ""),
-              key_orders="all n! for n<=3" + ("; n=4: 8 rotations/reversals for DAGs, 1 for cyclic digraphs" if q
+              key_orders=("all n! for n<=3" if not q else "all n! for n<=2 and for DAGs on 3 names, 2 for cyclic "
+                          "digraphs on 3 names") + ("; n=4: 4 orders (identity, reversal, one rotation and its reversal) for DAGs, 1 for cyclic digraphs (one scope each)" if q
                                                else "; n=4: all 24; n=5: 4 orders"),
               scopes=SCOPE_NAMES, mixed_placements="n=3" + ("" if q else ", n=4 (2 key orders)"),
               entry_points=["Spec._spec_eval_expressions(einsum_name='E'|None)",
